@@ -25,6 +25,37 @@ class StepLimit(Exception):
     pass
 
 
+class CpuLimit(Exception):
+    """The code under test consumed more CPU time than any terminating run
+    plausibly needs (process CPU time, so machine load does not matter)."""
+
+
+import contextlib  # noqa: E402
+import signal  # noqa: E402
+
+
+def _on_vtalrm(signum, frame):
+    raise CpuLimit()
+
+
+@contextlib.contextmanager
+def cpu_guard(seconds=8.0):
+    """Raise CpuLimit inside the block after `seconds` of process CPU time.
+    A hang of the code under test becomes a finite observation instead of a
+    check that never returns."""
+    try:
+        old = signal.signal(signal.SIGVTALRM, _on_vtalrm)
+    except ValueError:  # not in the main thread
+        yield
+        return
+    signal.setitimer(signal.ITIMER_VIRTUAL, seconds)
+    try:
+        yield
+    finally:
+        signal.setitimer(signal.ITIMER_VIRTUAL, 0)
+        signal.signal(signal.SIGVTALRM, old)
+
+
 def exc_bucket(e):
     """type @ innermost frame inside the repository (file:function)."""
     tb = traceback.extract_tb(e.__traceback__)
@@ -82,11 +113,17 @@ def parse_outcome(src, parser=None, step_factor=2, step_const=16):
     o.error = None
     o.error_pos = None
     o.result = None
+    from . import core as _core
+    _core.guard_enter(src)
     try:
-        o.verdict = p.parse(src)
+        with cpu_guard():
+            o.verdict = p.parse(src)
     except StepLimit:
         o.verdict = None
         o.exc = "StepLimit"
+    except CpuLimit:
+        o.verdict = None
+        o.exc = "CpuLimit"
     except RecursionError as e:
         o.verdict = None
         o.exc = "RecursionError"
@@ -96,6 +133,7 @@ def parse_outcome(src, parser=None, step_factor=2, step_const=16):
         o.exc = exc_bucket(e)
         o.exc_msg = repr(e)[:200]
     finally:
+        _core.guard_exit()
         if inst:
             inst[0].scan = inst[1]
     o.steps = inst[2][0] if inst else -1
